@@ -384,6 +384,72 @@ Section Run.
     intros Hb Hf Hex Ho. unfold worker, mol_step. destruct (c_base cfg); [|congruence]. rewrite Hf, Hex, Ho. reflexivity.
   Qed.
 
+  (* ---- database together with an output directory: equal to the database-only result unless the run is a resumed one -- *)
+  Definition nosave (cfg : config) : config := mkcfg (c_level cfg) (c_all_iters cfg) None (c_ext cfg) (c_overwrite cfg).
+  Definition named_input (i : input) : Prop := match i with Loads None _ => False | _ => True end.
+  (* no molecule is skipped because all its files exist (a fresh output directory, or overwrite) *)
+  Definition not_resumed (cfg : config) (fs : fsmap content) (i : input) : Prop :=
+    j_files (worker_job cfg i) = [] \/ job_skips (c_overwrite cfg) fs (worker_job cfg i) = false.
+
+  Lemma worker_rows_fresh cfg fs i :
+    level_ok cfg -> c_base cfg <> None -> named_input i -> not_resumed cfg fs i ->
+    rows_of (c_level cfg) (fst (worker cfg fs i)) = rows_of (c_level cfg) (result_of (nosave cfg) i).
+  Proof.
+    intros Hl Hb Hn Hr. unfold result_of, worker. destruct i as [[nm|] loop|]; [|destruct Hn|reflexivity].
+    unfold mol_step, not_resumed, worker_job, job_skips in *. simpl c_base. simpl c_level.
+    destruct (c_base cfg) as [b|] eqn:Eb; [|congruence].
+    unfold mol_files in *. rewrite Eb in *.
+    destruct (filenames (Some b) (c_level cfg) (c_all_iters cfg) nm (c_ext cfg)) as [files|e] eqn:Ef.
+    - simpl in Hr.
+      assert (Hskip : forallb (fs_isfile fs) files && negb (c_overwrite cfg) = false).
+      { destruct Hr as [Hnil|Hs]; [|exact Hs]. exfalso. subst files. unfold filenames in Ef.
+        destruct (single_level (c_level cfg) (c_all_iters cfg)) eqn:Es; [discriminate Ef|].
+        destruct Hl as [Hl|Hl]; [|unfold level_ok in Hl; congruence].
+        assert (Q : In 0 (zrange (c_level cfg + 1))) by (apply zrange_in; lia).
+        destruct (zrange (c_level cfg + 1)) eqn:Er; [destruct Q|discriminate Ef]. }
+      rewrite Hskip. destruct loop as [d|e]; [|reflexivity]. simpl.
+      destruct (save_plan files (c_level cfg) (c_all_iters cfg) d) as [ws|e] eqn:Es; [reflexivity|].
+      simpl. unfold Batch.save_plan in Es. destruct (single_level (c_level cfg) (c_all_iters cfg)) eqn:Esl; [|discriminate].
+      destruct (dict_max_key d) as [mk|] eqn:Em; [|reflexivity].
+      exfalso. destruct files as [|f0 rest].
+      + unfold filenames in Ef. rewrite Esl in Ef. discriminate Ef.
+      + destruct (dict_get_key d mk (dict_max_key_in d mk Em)) as [l El]. rewrite El in Es. discriminate Es.
+    - unfold filenames in Ef. destruct (single_level (c_level cfg) (c_all_iters cfg)); [discriminate Ef|].
+      destruct (zrange (c_level cfg + 1)); discriminate Ef.
+  Qed.
+
+  Lemma run_workers_rows_fresh cfg order : forall fs,
+    level_ok cfg -> NoDup (saved_names order) -> c_base cfg <> None ->
+    (forall i, In i order -> named_input i) -> (forall i, In i order -> not_resumed cfg fs i) ->
+    flat_map (rows_of (c_level cfg)) (fst (run_workers cfg fs order))
+    = flat_map (rows_of (c_level cfg)) (map (result_of (nosave cfg)) order).
+  Proof.
+    induction order as [|i0 t IH]; intros fs Hl Hnd Hb Hn Hr; simpl; [reflexivity|].
+    pose proof (worker_rows_fresh cfg fs i0 Hl Hb (Hn i0 (or_introl eq_refl)) (Hr i0 (or_introl eq_refl))) as W.
+    pose proof (worker_is_job cfg fs i0) as J.
+    destruct (worker cfg fs i0) as [r fs1]. simpl in W, J.
+    assert (Hr1 : forall i, In i t -> not_resumed cfg fs1 i).
+    { intros i Hi. destruct (Hr i (or_intror Hi)) as [Hnil|Hs]; [left; exact Hnil|right].
+      rewrite <- Hs. apply skip_agree. intros p Hp. rewrite J, run_job_partial.
+      apply frame_partial; [apply worker_job_wf; exact Hl|].
+      pose proof (jobs_disjoint cfg (i0 :: t) Hl Hnd) as Hd. unfold disjoint in Hd. simpl in Hd.
+      intro Q. apply (NoDup_app_disjoint _ _ p Hd Q). apply in_flat_map. exists (worker_job cfg i). split; [apply in_map; exact Hi|exact Hp]. }
+    assert (Hnd1 : NoDup (saved_names t)) by (unfold saved_names in *; simpl in Hnd; eapply NoDup_app_r; exact Hnd).
+    specialize (IH fs1 Hl Hnd1 Hb (fun i Hi => Hn i (or_intror Hi)) Hr1).
+    destruct (run_workers cfg fs1 t) as [rs fs2]. simpl in *. rewrite W, IH. reflexivity.
+  Qed.
+
+  Lemma db_with_files_partial cfg fs order :
+    level_ok cfg -> NoDup (saved_names order) -> c_base cfg <> None ->
+    (forall i, In i order -> named_input i) -> (forall i, In i order -> not_resumed cfg fs i) ->
+    fst (run cfg fs order true) = fst (run (nosave cfg) fs order true).
+  Proof.
+    intros Hl Hnd Hb Hn Hr. unfold Batch.run.
+    pose proof (run_workers_rows_fresh cfg order fs Hl Hnd Hb Hn Hr) as Q.
+    rewrite (run_workers_nosave (nosave cfg) order fs eq_refl).
+    destruct (run_workers cfg fs order) as [rs fs']. simpl in *. rewrite !collect_flat_map, Q. reflexivity.
+  Qed.
+
   (* ---- generate_conformers(save=True) is the same machine with one file ------------------------------------------ *)
   Lemma cg_is_job ow fs out_file gen :
     snd (cg_step content ow fs out_file gen) = run_job ow fs (cg_job content out_file gen).
